@@ -89,7 +89,10 @@ def startStr : Str := "start".toList
 def tempIdSeparator : Str := "|".toList
 /-- `excluded_headers` of `to_row_data_sheet(strip_uuids=True)` = the headers of the two `U`-valued
 fields of `RowT` (`nodeId` ↦ `_nodeId`, `objId` ↦ `obj_id`) that `RowS` does not have -/
-def excludedHeaders : List Str := ["_nodeId".toList, "obj_id".toList]
+def idFieldHeaders : List Str := ["_nodeId".toList, "obj_id".toList]
+/-- what `--strip_uuids` excludes: the two id fields, and (since fix F-C17-a) the WhatsApp
+template id, which lives in the opaque payload -/
+def excludedHeaders : List Str := idFieldHeaders ++ ["wa_template.uuid".toList]
 
 variable {U : Type} [DecidableEq U]
 
